@@ -20,6 +20,7 @@ package main
 
 import (
 	"bufio"
+	"bytes"
 	"encoding/json"
 	"fmt"
 	"os"
@@ -71,6 +72,7 @@ type result struct {
 	Hung     bool     `json:"hung,omitempty"`
 	Repaired []string `json:"repaired,omitempty"`
 	Micros   int64    `json:"us"`
+	Note5xx  string   `json:"note_5xx,omitempty"` // start of the body of a 5xx answer that is not a recovered panic
 }
 
 var caseLimit = 600 * time.Second
@@ -190,6 +192,12 @@ func runCase(w *world, srv *server, k *kase) result {
 
 		res.Status[pass] = a.Status
 		res.Reached[pass] = a.Obs.Reached
+
+		if a.Status >= 500 && a.Obs.Panic == "" && res.Note5xx == "" {
+			if i := bytes.Index(a.Raw, []byte("\r\n\r\n")); i >= 0 {
+				res.Note5xx = shorten(strings.Join(strings.Fields(string(a.Raw[i+4:])), " "), 300)
+			}
+		}
 
 		if a.Obs.Panic != "" && res.Panic == "" {
 			res.Panic = a.Obs.Panic
@@ -746,6 +754,7 @@ type verdict struct {
 	hung      []string
 	slowest   []slow
 	cands     []cand
+	fivexx    map[string]map[string]int
 	done      int
 	began     time.Time
 }
@@ -768,7 +777,7 @@ type routeStats struct {
 }
 
 func newVerdict(r *report.R, p *plan) *verdict {
-	return &verdict{began: time.Now(), r: r, plan: p, statuses: map[string]int64{}, perRoute: map[string]*routeStats{}, repaired: map[string]int64{}, shutdowns: map[string]int64{}}
+	return &verdict{began: time.Now(), r: r, plan: p, statuses: map[string]int64{}, perRoute: map[string]*routeStats{}, repaired: map[string]int64{}, shutdowns: map[string]int64{}, fivexx: map[string]map[string]int{}}
 }
 
 func (v *verdict) add(o outcome) {
@@ -844,6 +853,21 @@ func (v *verdict) add(o outcome) {
 
 	for _, x := range res.Repaired {
 		v.repaired[x]++
+	}
+
+	if res.Note5xx != "" {
+		if v.fivexx[k.Route] == nil {
+			v.fivexx[k.Route] = map[string]int{}
+		}
+
+		msg := res.Note5xx
+		if i := strings.Index(msg, `"msg":`); i >= 0 {
+			msg = msg[i:]
+		}
+
+		if len(v.fivexx[k.Route]) < 6 || v.fivexx[k.Route][msg] > 0 {
+			v.fivexx[k.Route][msg]++
+		}
 	}
 
 	if len(v.slowest) < 8 || res.Micros > v.slowest[len(v.slowest)-1].us {
@@ -963,6 +987,7 @@ func (v *verdict) finish() {
 	v.r.Set("world_repairs", v.repaired)
 	v.r.Set("cases_that_stopped_the_process", v.shutdowns)
 	v.r.Set("panicking_cases", len(v.hits))
+	v.r.Set("own_5xx_answers_of_handlers", v.fivexx)
 
 	sl := []string{}
 	for _, s := range v.slowest {
